@@ -450,6 +450,7 @@ func ruleOBS4(c *Ctx) []Obligation {
 	var obs []Obligation
 	info := c.pkg(pkgIR).TypesInfo
 	done := map[*ast.FuncDecl]bool{}
+	perSpace := map[string]int{}
 	for _, sc := range c.setIDCalls() {
 		if done[sc.fd] {
 			continue
@@ -457,6 +458,9 @@ func ruleOBS4(c *Ctx) []Obligation {
 		done[sc.fd] = true
 		defs := collectDefs(info, sc.fd.Body)
 		n := 0
+		// keyed by the ID space, not by the function the routine happens to live in, so that a
+		// recorded finding follows the code when the routine is moved into a helper or method object
+		space := c.idSpaceOfStore(info, sc.fn, sc.recv)
 		ast.Inspect(sc.fd.Body, func(nd ast.Node) bool {
 			is, ok := nd.(*ast.IfStmt)
 			if !ok {
@@ -478,7 +482,8 @@ func ruleOBS4(c *Ctx) []Obligation {
 				return true
 			}
 			n++
-			obs = append(obs, Obligation{Key: fmt.Sprintf("%s failing branch #%d on assigned IDs", funcKey(sc.fn), n), Pos: c.pos(is.Pos()), Verdict: VIOL,
+			perSpace[space]++
+			obs = append(obs, Obligation{Key: fmt.Sprintf("numbering of %s IDs: failing branch #%d on assigned IDs", space, perSpace[space]), Pos: c.pos(is.Pos()), Verdict: VIOL,
 				Detail: fmt.Sprintf("`if %s` fails (error / panic) depending on IDs that an earlier print assigned: after printing once, inserting or reordering unnamed values (or reusing a number) makes the next print fail although the same edit before the first print succeeds", exprString(is.Cond))})
 			return true
 		})
@@ -487,6 +492,24 @@ func ruleOBS4(c *Ctx) []Obligation {
 		}
 	}
 	return obs
+}
+
+// idSpaceOfStore: which IDs ("local", "global", "metadata") an ID-setting call numbers.
+func (c *Ctx) idSpaceOfStore(info *types.Info, fn *types.Func, obj ast.Expr) string {
+	t := info.TypeOf(obj)
+	switch {
+	case t == nil:
+		return "?"
+	case isNamed(t, pkgIR, "GlobalIdent"):
+		return "global"
+	case isNamed(t, pkgIR, "LocalIdent"):
+		return "local"
+	case namedOf(t) != nil && namedOf(t).Obj().Pkg() != nil && namedOf(t).Obj().Pkg().Path() == pkgMD:
+		return "metadata"
+	case types.IsInterface(t):
+		return c.idSpaceOfMethod(fn, map[*types.Func]bool{}, 0)
+	}
+	return "?"
 }
 
 func ruleOBS5(c *Ctx) []Obligation {
